@@ -221,3 +221,6 @@ cms_cfg!(2, 3, u32, 8, cms_add_w2d3_u32, cms_add1_w2d3_u32, cms_merge_w2d3_u32, 
 cms_cfg!(3, 2, usize, 8, cms_add_w3d2_usize, cms_add1_w3d2_usize, cms_merge_w3d2_usize, cms_singleton_w3d2_usize, cms_clear_clone_w3d2_usize);
 cms_cfg!(2, 3, u8, 8, cms_add_w2d3_u8, cms_add1_w2d3_u8, cms_merge_w2d3_u8, cms_singleton_w2d3_u8, cms_clear_clone_w2d3_u8);
 cms_cfg!(3, 2, u64, 8, cms_add_w3d2_u64, cms_add1_w3d2_u64, cms_merge_w3d2_u64, cms_singleton_w3d2_u64, cms_clear_clone_w3d2_u64);
+// wide and shallow (w > d*d): row-oriented loops that confuse w and d leave columns >= d*d untouched only on such shapes
+cms_cfg!(5, 2, u8, 12, cms_add_w5d2_u8, cms_add1_w5d2_u8, cms_merge_w5d2_u8, cms_singleton_w5d2_u8, cms_clear_clone_w5d2_u8);
+cms_cfg!(3, 1, u8, 6, cms_add_w3d1_u8, cms_add1_w3d1_u8, cms_merge_w3d1_u8, cms_singleton_w3d1_u8, cms_clear_clone_w3d1_u8);
